@@ -95,6 +95,18 @@ pub proof fn lemma_backoff_closed_form(base: int, max: int, k: nat)
 }
 pub proof fn lemma_pow2_pos(k: nat) ensures pow2(k) >= 1 decreases k { if k > 0 { lemma_pow2_pos((k - 1) as nat); } }
 
+// C11: deadlines computed from configured durations (connect timeout, reconnect wait) never overflow.
+// A-CLOCK-30Y: the platform's monotonic clock is at least 30 years below its largest representable value.
+pub open spec fn FAR_FUTURE_NANOS() -> int { 946080000int * 1000000000 }
+//@fn gneiss-mqtt/src/client/mod.rs add_duration_saturating props=C11,C19
+    requires base.nanos + FAR_FUTURE_NANOS() <= INSTANT_MAX_NANOS(),
+    // no precondition on `duration`: any value the builders accept
+    ensures
+        base.nanos + duration.nanos <= INSTANT_MAX_NANOS() ==> r.nanos == base.nanos + duration.nanos,
+        base.nanos + duration.nanos > INSTANT_MAX_NANOS() ==> r.nanos == base.nanos + FAR_FUTURE_NANOS(),
+        r.nanos >= base.nanos,
+//@end
+
 impl MqttClientImpl {
 //@fn gneiss-mqtt/src/client/mod.rs MqttClientImpl::clamp_reconnect_period props=C19
     ensures r == dmin(reconnect_period, self.reconnect_options.max_reconnect_period),
